@@ -103,6 +103,30 @@ def boundedBy (start d : Nat) : Ret → Prop
 instance (start d : Nat) (r : Ret) : Decidable (boundedBy start d r) := by
   cases r <;> simp only [boundedBy] <;> infer_instance
 
+/-! ## Calls that are loops of calls
+
+`Session.Write` cuts its buffer into chunks of at most `maxPDU` bytes and runs `writeChunk` for each; every
+`writeChunk` arms its own timer from the stored `writeDeadline`, and on a client stores a new
+`respDeadline` when it returns.  `io.ReadFull`, `io.Copy`, the SOCKS5 parser of `apis/server Accept` issue
+`Read`s back to back under one deadline. -/
+
+/-- `Write` of a buffer that needs one chunk per entry of `envs` (when the environment lets that chunk
+    through); it stops at the first chunk that times out or never returns -/
+def writeChunks (client : Bool) (s : St) (start : Nat) : List (Option Nat) → St × Ret
+  | [] => (s, .at start false)
+  | env :: rest =>
+    match step client s (.write start env true) with
+    | (s', .at t false) => writeChunks client s' t rest
+    | r => r
+
+/-- `Read`s issued back to back (each starts when the previous one returned) until one fails -/
+def readLoop (client : Bool) (s : St) (start : Nat) : List (Option Nat) → St × Ret
+  | [] => (s, .at start false)
+  | env :: rest =>
+    match step client s (.read start env) with
+    | (s', .at t false) => readLoop client s' t rest
+    | r => r
+
 /-! ## The code before the fix -/
 namespace Legacy
 
